@@ -199,7 +199,31 @@ const EDITS: &[&str] = &[
     // the signed bytes of a transaction do not delimit inputs from outputs: the (single) output
     // to the sender becomes a second input naming another of its outputs of that amount and index
     "move-output-to-input",
+    // signature malleability: the s half of a compact ECDSA signature replaced by n - s (the other
+    // encoding of the same signature; libsecp256k1 only accepts the low-s form). Neither the block hash
+    // nor the merkle leaves cover signature bytes, so an accepted copy keeps the creator's hash
+    "flip-s-header-signature",
+    "flip-s-tx-signature",
 ];
+
+/// s := n - s on a 64-byte compact signature (n = order of secp256k1)
+fn flip_s(sig: &mut [u8; 64]) {
+    const N: [u8; 32] = [
+        0xFF, 0xFF, 0xFF, 0xFF, 0xFF, 0xFF, 0xFF, 0xFF, 0xFF, 0xFF, 0xFF, 0xFF, 0xFF, 0xFF, 0xFF, 0xFE, 0xBA, 0xAE, 0xDC, 0xE6, 0xAF, 0x48,
+        0xA0, 0x3B, 0xBF, 0xD2, 0x5E, 0x8C, 0xD0, 0x36, 0x41, 0x41,
+    ];
+    let mut borrow = 0i16;
+    for i in (0..32).rev() {
+        let d = N[i] as i16 - sig[32 + i] as i16 - borrow;
+        if d < 0 {
+            sig[32 + i] = (d + 256) as u8;
+            borrow = 1;
+        } else {
+            sig[32 + i] = d as u8;
+            borrow = 0;
+        }
+    }
+}
 
 #[tokio::main(flavor = "current_thread")]
 async fn main() {
@@ -310,6 +334,8 @@ async fn main() {
                         b.transactions[n0].from[0].amount += 1;
                         b.transactions[n0].from[0].generate_utxoset_key();
                     }
+                    "flip-s-header-signature" => flip_s(&mut b.signature),
+                    "flip-s-tx-signature" => flip_s(&mut b.transactions[n0].signature),
                     "move-output-to-input" => {
                         let out = b.transactions[n0].to[0].clone();
                         let cur = b.transactions[n0].from[0].clone();
